@@ -209,6 +209,69 @@ def trace_task(task):
     return {"nets": nets, "fails": fails}
 
 
+def use_task(task):
+    """Walk the MadeUse graph on real networks; measure the dependency pattern at every Forward."""
+    import torch
+
+    torch.set_num_threads(1)
+    cfgs, walks, seed = task
+    out = {"n": 0, "fails": []}
+    for ci, cfg in enumerate(cfgs):
+        for copy in ("transforms.made", "nn.nde.made"):
+            torch.manual_seed(seed + ci)
+            net = build_net(copy, cfg, ctx=None, activation="identity")
+            D, m = cfg["D"], cfg["m"]
+            g = torch.Generator().manual_seed(seed + 17 * ci)
+            wsets = {}
+            for name in ("ones", "randA", "randB"):
+                sd = {}
+                for k, v in net.state_dict().items():
+                    if k.endswith(("mask", "degrees")):
+                        sd[k] = v.clone()
+                    elif name == "ones":
+                        sd[k] = torch.ones_like(v) if k.endswith("weight") else torch.zeros_like(v)
+                    else:
+                        sd[k] = 0.5 + torch.rand(v.shape, generator=g)  # positive: no cancellation
+                wsets[name] = sd
+            opt = torch.optim.SGD(net.parameters(), lr=1.0)
+            for walk in walks:
+                hist = []
+                net.train()
+                net.load_state_dict(wsets["ones"])
+                for name, args in walk:
+                    hist.append([name] + [str(a) for a in args])
+                    if name == "Train":
+                        net.train()
+                    elif name == "Eval":
+                        net.eval()
+                    elif name == "SetWeights":
+                        w, how = str(args[0]), str(args[1])
+                        tgt = wsets[w]
+                        if how == "load":
+                            net.load_state_dict(tgt)
+                        elif how == "inplace":
+                            with torch.no_grad():
+                                for k, p in net.named_parameters():
+                                    p.copy_(tgt[k])
+                        else:  # optimiser step landing exactly on the target weights
+                            for k, p in net.named_parameters():
+                                p.grad = (p.detach() - tgt[k])
+                            opt.step()
+                            opt.zero_grad(set_to_none=True)
+                    elif name == "Forward":
+                        out["n"] += 1
+                        with torch.no_grad():
+                            x = torch.cat([torch.zeros(1, D), torch.eye(D)], 0)
+                            y = net(x)
+                            J = (y[1:] - y[0:1]).t()
+                        bad = [(o, [j + 1 for j in range(D) if j >= o // m and float(J[o, j]) != 0.0]) for o in range(J.shape[0])]
+                        bad = [b for b in bad if b[1]]
+                        if bad:
+                            out["fails"].append({"copy": copy, "cfg": cfg, "draws": None, "ctx": None, "seed": seed + ci, "clause": "weights_after_history", "history": list(hist), "detail": "after %s output unit %d (feature %d) depends on inputs %s" % (hist[-4:], bad[0][0], bad[0][0] // m + 1, bad[0][1])})
+                            break
+    return out
+
+
 def to_py(v):
     if isinstance(v, dict):
         return {str(k): to_py(x) for k, x in v.items()}
@@ -231,7 +294,10 @@ def main(run, replay=None):
         import torch
 
         torch.set_num_threads(1)
-        if c.get("clause") == "generic_weights":
+        if c.get("clause") == "weights_after_history":
+            out = use_task(([c["cfg"]], [[(h[0], tuple(h[1:])) for h in c["history"]]], c["seed"]))
+            bad = out["fails"]
+        elif c.get("clause") == "generic_weights":
             net = build_net(c["copy"], c["cfg"], draws=c["draws"], ctx=c["ctx"], activation="relu", bn=c["bn"], dropout=c["dropout"])
             bad = generic_violations(net, c["cfg"]["D"], c["cfg"]["m"], c["ctx"], c["train"], c["seed"])
         else:
@@ -282,6 +348,22 @@ def main(run, replay=None):
     if states:
         s0 = next((s for s in states if s["cfg"]["rnd"] and s["cfg"]["D"] >= 3), states[0])
         run.sample({"cfg": s0["cfg"], "layer_degrees": [l["degs"] for l in s0["layers"]], "reach": [sorted(r) for r in s0["reach"]]})
+    # life after construction: weights arriving at any moment, in any mode (MadeUse.tla)
+    from vcore.tlaval import parse_dot
+    from vcore.walk import covering_walks
+
+    ures = T.run_tlc("MadeUse", T.cfg(invariants=["AlwaysMasked"]), dot=True, name="madeuse", workers=2)
+    run.model_must_hold(ures, "MadeUse")
+    run.add_tlc(ures, "MadeUse", require_actions=["Train", "Eval", "Forward", "SetWeights"])
+    ug = parse_dot(ures.dot)
+    uwalks = [[(ug.edges[ei][2], ug.edges[ei][3]) for ei in w] for w in covering_walks(ug, ug.init[0])]
+    ucfgs = [{"D": 3, "H": 4, "B": 1, "m": 2, "res": True, "rnd": False}, {"D": 4, "H": 5, "B": 2, "m": 1, "res": False, "rnd": True}, {"D": 2, "H": 3, "B": 0, "m": 3, "res": False, "rnd": False}]
+    if thorough:
+        ucfgs += [{"D": D, "H": H, "B": B, "m": 2, "res": r, "rnd": (not r) and B > 0} for D in (2, 3, 5) for H in (2, 6) for B in (0, 2) for r in (True, False)]
+    for out in pmap(use_task, [([c], uwalks, run.seed + i) for i, c in enumerate(ucfgs)], nproc):
+        run.evaluations += out["n"]
+        fails += out["fails"]
+    run.extra["madeuse_walk_steps"] = sum(len(w) for w in uwalks)
     # code -> spec: real generator
     cfgs = []
     for D in range(1, bounds["MaxD"] + 1):
